@@ -149,10 +149,11 @@ func (e *Engine) pureIntrinsic(name string) intrinsic {
 	if name == "strconv.ParseFloat" || name == "net.ParseIP" {
 		return nil // result types differ from the adaptor's; left unmodelled
 	}
-	return func(m *Machine, fr *frame, a []Value) Value {
-		if len(a) != ft.NumIn() {
+	return func(m *Machine, fr *frame, a0 []Value) Value {
+		if len(a0) != ft.NumIn() {
 			panic(abort("pure call " + name + ": arity"))
 		}
+		a := append([]Value{}, a0...)
 		goArgs := make([]reflect.Value, len(a))
 		allConst := true
 		for i := range a {
@@ -161,6 +162,13 @@ func (e *Engine) pureIntrinsic(name string) intrinsic {
 				sl, ok := av.(Slice)
 				if !ok {
 					panic(abort("pure call " + name + ": byte slice expected"))
+				}
+				if sl.rope == nil && sl.arr != nil {
+					for k := 0; k < sl.len; k++ {
+						if n, ok := (*sl.At(k)).(Num); !ok || n.t != nil {
+							return realCode{} // symbolic bytes: the real code is executed instead
+						}
+					}
 				}
 				av = m.bytesToStr(sl)
 			}
